@@ -286,6 +286,55 @@ fn run_g<G: Grp, const N: usize>(c: &Case, rec: &Rec) -> R {
         .obs(got.to_string(), expect_accept.to_string()));
     }
 
+    // --- cancelling opening: the commitment that is the identity element -----------------------
+    // verify_opening is "recomputed == given", with no side condition on the given element: when the
+    // terms of the map cancel (known logs: r = -(Σ aᵢmᵢ)/a₀; any parameters: all-zero opening) the
+    // commitment is the identity and the genuine opening must still be accepted.
+    {
+        let (rc, label) = match &logs {
+            Some(a) => {
+                let mut e = Scalar::zero();
+                for i in 0..N {
+                    e += a[i + 1] * m[i];
+                }
+                (-(e * a[0].invert().unwrap()), "cancelling-bf")
+            }
+            None => (Scalar::zero(), "all-zero-opening"),
+        };
+        let mc = if logs.is_some() { m } else { [Scalar::zero(); N] };
+        let com_c = Message::new(mc).commit(&params, bf(&rc));
+        rec.eval(2);
+        rec.class(&format!("identity-commitment/{}", label));
+        ensure!(
+            com_c.to_element() == G::identity() && pedersen(&h, &gs, &mc, &rc) == G::identity(),
+            "C09/commit-not-pedersen-map",
+            "opening constructed to cancel ({}) does not commit to the identity element ({} N={})",
+            label,
+            G::NAME,
+            N
+        );
+        ensure!(
+            com_c.verify_opening(&params, bf(&rc), &Message::new(mc))
+                && commitment_from::<G>(&G::identity()).verify_opening(&params, bf(&rc), &Message::new(mc)),
+            "C09/original-opening-rejected",
+            "verify_opening rejected the genuine opening of an identity-valued commitment ({} {} N={})",
+            label,
+            G::NAME,
+            N
+        );
+        // and the identity commitment opens to nothing else
+        let mut mo = mc;
+        mo[pick_idx(c.n_idx as u16 * 7919, N)] += Scalar::one();
+        ensure!(
+            !com_c.verify_opening(&params, bf(&rc), &Message::new(mo)) || pedersen(&h, &gs, &mo, &rc) == G::identity(),
+            "C09/opening-accepted-for-other-value",
+            "identity-valued commitment opened to a shifted message ({} {} N={})",
+            label,
+            G::NAME,
+            N
+        );
+    }
+
     // --- homomorphism -----------------------------------------------------------------------
     let mb = scalars::<N>(&c.msg2);
     let rb = c.bf2.get();
